@@ -633,6 +633,12 @@ def stack_walk_from_caller(prog: Program, rep: Report, rule: str):
     if not n:
         rep.held(rule, ext.qualname, ext.loc, "the package makes no stack search", detail="stack-walk-from-caller", nontrivial=False)
         return
+    # ... and the search honours the frame it is given: the frames whose bindings it reads derive from that parameter
+    if not skips_own and "frame" in ext.params:
+        fp = ("param", "frame")
+        subjects = [x[1] for p in P.paths_of(prog, ext) for tm in p.all_terms() for x in T.walk(tm) if x[0] == "attr" and x[2] in ("f_globals", "f_locals")]
+        honoured = bool(subjects) and all(T.contains(sj, lambda y: y == fp) for sj in subjects)
+        rep.check(honoured, rule, ext.qualname, ext.loc, "extract() starts at the frame it is given", "extract() reads the bindings of frames that do not derive from its `frame` parameter (it starts at its own frame whatever the caller passes): the search begins inside the library again", detail="stack-walk-honours-frame")
     rep.check(not inside, rule, sorted(set(inside))[0] if inside else ext.qualname, ext.loc, f"the stack is searched from the caller's frame on ({n} call(s) on paths)", f"{sorted(set(inside))} search(es) the stack starting at the library's own frames: a name the library's modules bind themselves (TypeNode, ForwardRef, Any, Final, inspection, ...) is found there first -- unmarshal('TypeNode', {{'x': 1}}) from a module that defines its own TypeNode builds typelib.graph.TypeNode", detail="stack-walk-from-caller")
 
 
